@@ -796,6 +796,12 @@ class ModuleVistor(NodeVisitor):
                     # Note: We skip type and aliasing analysis for this case,
                     #       but we do record line numbers.
                     self._handleAssignment(elem, None, None, lineno)
+                    if isinstance(elem, ast.Name):
+                        # The name is bound to something else now: a value (and the type inferred
+                        # from it) recorded by an earlier assignment does not describe it anymore.
+                        obj = self.builder.current.contents.get(elem.id)
+                        if isinstance(obj, model.Attribute):
+                            obj.value = None
             else:
                 self._handleAssignment(target, annotation, expr, lineno)
 
